@@ -224,7 +224,7 @@ def calls_database_TinyFlux : List (String × List String) := [
   ("select", ["<raise ValueError>", "MeasurementQuery", "ValueError", "_", "_.append", "_.startswith", "enumerate", "hasattr", "index_is_exact", "isinstance", "len", "list", "self._index.search", "self._storage._deserialize_measurement", "self._storage._deserialize_storage_item", "tuple"]),
   ("update", ["self._update_helper"]),
   ("update_all", ["TagQuery", "TagQuery().noop", "self._update_helper"]),
-  ("_generate_updater", ["<raise ValueError>", "ValueError", "all", "callable", "isinstance", "validate_fields", "validate_tags"]),
+  ("_generate_updater", ["<raise ValueError>", "ValueError", "all", "callable", "isinstance", "list", "validate_fields", "validate_tags"]),
   ("_generate_updater.perform_update", ["<except ValueError>", "<raise ValueError>", "ValueError", "_", "_.fields.pop", "_.fields.update", "_.tags.pop", "_.tags.update", "_.time.astimezone", "callable", "copy.deepcopy", "isinstance", "validate_fields", "validate_tags"]),
   ("_insert_helper", ["<except Exception>", "<finally>", "<raise TypeError>", "<re-raise>", "TypeError", "_.time.astimezone", "_.time.timestamp", "datetime.now", "isinstance", "self._index.insert", "self._index.invalidate", "self._storage._serialize_point", "self._storage.append", "validate_fields", "validate_tags"]),
   ("_remove_helper", ["<except Exception>", "<re-raise>", "MeasurementQuery", "_", "_.add", "enumerate", "index_is_exact", "len", "self._index.invalidate", "self._index.remove", "self._index.search", "self._index.update", "self._reset_database", "self._storage._deserialize_measurement", "self._storage._deserialize_storage_item", "self._storage._swap_temp_with_primary", "self._storage.append", "set"]),
